@@ -822,6 +822,9 @@ func minimise(bld *build, runDir string, p *propSpec, f found) RunInput {
 
 func writeReplay(id string, in RunInput, v Violation, res *Result, bld *build) string {
 	dir := filepath.Join(verifDir, "replays")
+	if repoDir != "/repo" {
+		dir = filepath.Join(os.TempDir(), "verif-replays-other")
+	}
 	os.MkdirAll(dir, 0o755)
 	sg := sanitize(v.Sig)
 	if len(sg) > 48 {
